@@ -19,12 +19,12 @@ theorem mapM_of_forall {α β : Type} (f : α → Option β) (g : α → β) (l 
   | cons x xs ih =>
     simp [List.mapM_cons, h x (by simp), ih (fun y hy => h y (List.mem_cons_of_mem _ hy))]
 
-/-- `read_sig` from the text = `read_sig` on the pieces, for a well-formed text whose parts denote pieces -/
-theorem readSigText_parts (enc : List Char → Nat) (ua upo ukw : Bool) (parts : List Part) (f : Part → Piece)
+/-- the pieces of a well-formed text whose parts denote pieces -/
+theorem piecesOfText_parts (enc : List Char → Nat) (parts : List Part) (f : Part → Piece)
     (hne : parts ≠ []) (hs : ∀ p ∈ parts, p.Simple)
     (hp : ∀ p ∈ parts, toPiece enc (p.arg, p.ann, p.dflt) = some (f p)) :
-    readSigText enc ua upo ukw (joinComma (parts.map Part.text)) = some (readSig ua upo ukw (parts.map f)) := by
-  unfold readSigText
+    piecesOfText enc (joinComma (parts.map Part.text)) = some (parts.map f) := by
+  unfold piecesOfText
   rw [splitParams_simple parts hne hs]
   have h1 : (parts.map (fun p => some (p.arg, p.ann, p.dflt))).mapM id = some (parts.map (fun p => (p.arg, p.ann, p.dflt))) := by
     have := mapM_id_map_some (parts.map (fun p => (p.arg, p.ann, p.dflt)))
@@ -35,6 +35,14 @@ theorem readSigText_parts (enc : List Char → Nat) (ua upo ukw : Bool) (parts :
     rw [List.mapM_map]
     exact this
   simp [h2]
+
+/-- `read_sig` from the text = `read_sig` on the pieces, for a well-formed text whose parts denote pieces -/
+theorem readSigText_parts (enc : List Char → Nat) (ua upo ukw : Bool) (parts : List Part) (f : Part → Piece)
+    (hne : parts ≠ []) (hs : ∀ p ∈ parts, p.Simple)
+    (hp : ∀ p ∈ parts, toPiece enc (p.arg, p.ann, p.dflt) = some (f p)) :
+    readSigText enc ua upo ukw (joinComma (parts.map Part.text)) = some (readSig ua upo ukw (parts.map f)) := by
+  unfold readSigText
+  rw [piecesOfText_parts enc parts f hne hs hp]; rfl
 
 /-! what the argument tokens denote -/
 
